@@ -97,6 +97,23 @@ func textFault(base, kind string, at int, val string) string {
 		operands := map[string]string{"empty": "[]", "null": "null", "one": "[1]", "object": "{}", "string": `""`}[val]
 		return fmt.Sprintf(`[{"name":"E","desc":"d","salience":1,"when":{"%s":%s},"then":[{"%s":%s}]}]`, op, operands, op, operands)
 	}
+	if val == "deepcmp" {
+		// comparison / arithmetic operators of the JSON rule language nested 24 .. 60 deep (JSON rule loader only)
+		if kind != "insert" || !(strings.HasPrefix(strings.TrimSpace(base), "[") || strings.HasPrefix(strings.TrimSpace(base), "{")) {
+			return base
+		}
+		op := []string{"plus", "minus", "mul", "eq", "gt", "lte", "bor", "band", "mod", "div"}[at%10]
+		depth := 24 + 4*at
+		return `[{"name":"D","desc":"d","salience":1,"when":{"eq":[` + strings.Repeat(`{"`+op+`":[1,`, depth) + "2" + strings.Repeat("]}", depth) + `,3]},"then":[{"call":["Complete"]}]}]`
+	}
+	if val == "nullroot" {
+		// documents whose root is null, a bare scalar, or holds nulls (fact and rule loaders)
+		docs := []string{"null", " null ", "\n\tnull\r\n", "[null]", `{"a":null}`, "true", "0", `""`, "[]", "{}"}
+		if kind == "insert" && (strings.HasPrefix(strings.TrimSpace(base), "[") || strings.HasPrefix(strings.TrimSpace(base), "{")) {
+			return docs[at%len(docs)]
+		}
+		return base
+	}
 	if val == "selchain" {
 		// a chain of array / map selectors on a call result (dedicated probe: the node signature must not grow faster than the text)
 		if kind == "insert" && at < 4 && (strings.HasPrefix(strings.TrimSpace(base), "rule") || strings.HasPrefix(strings.TrimSpace(base), "Rule") || strings.HasPrefix(strings.TrimSpace(base), "RULE")) {
